@@ -157,6 +157,8 @@ class BlockLU(LU):
         self.prevent_state = 0
         self.xcopies = []
         self.ata_log = []
+        # READ CAPACITY(16) geometry/protection fields (SBC-3 5.16.2)
+        self.geom = dict(p_type=0, prot_en=0, p_i_exp=0, lbppbe=3, lbpme=1, lbprz=0, lowest_aligned=5)
 
     def state_digest(self):
         h = hashlib.sha256()
@@ -240,7 +242,7 @@ class BlockLU(LU):
         return good(R.read_capacity10(self.nblocks - 1, self.bs))
 
     def readcap16(self, f):
-        return good(R.read_capacity16(self.nblocks - 1, self.bs, lbpme=1, lbppbe=3, lowest_aligned=5)[:f["alloc"]])
+        return good(R.read_capacity16(self.nblocks - 1, self.bs, **self.geom)[:f["alloc"]])
 
     def get_lba_status(self, f):
         lba = f["lba"]
@@ -595,6 +597,23 @@ class MmcLU(LU):
 
     def state_digest(self):
         return self._blk.state_digest() + str(self.prevent_state)
+
+    # the medium, as a block device sees it (2048-byte sectors)
+    @property
+    def blocks(self):
+        return self._blk.blocks
+
+    @blocks.setter
+    def blocks(self, v):
+        self._blk.blocks = v
+
+    @property
+    def bs(self):
+        return self._blk.bs
+
+    @property
+    def nblocks(self):
+        return self._blk.nblocks
 
     def _delegate(self, meth, f):
         b = self._blk
